@@ -57,3 +57,23 @@ Definition alloc_chain (k : nat) (d : tdump) : tdump * list N :=
 
 (* freeing a value: every slot of its chain is cleared (ValueTable::clear_chain) *)
 Definition free_chain (d : tdump) (is : list N) : tdump := fold_left free1 is d.
+
+(* ---- histories of one table: values are stored (in k+1 slots) and removed (the j-th live value, oldest first) ---- *)
+Inductive aop := AStore (k : nat) | ARemove (j : nat).
+Fixpoint remove_nth {A} (n : nat) (l : list A) : list A :=
+  match l, n with
+  | [], _ => []
+  | _ :: r, O => r
+  | a :: r, S n' => a :: remove_nth n' r
+  end.
+Definition astep (st : tdump * list (list N)) (o : aop) : tdump * list (list N) :=
+  let '(d, live) := st in
+  match o with
+  | AStore k => let '(d', l) := alloc_chain (S k) d in (d', live ++ [l])
+  | ARemove j => match nth_error live j with
+                 | Some c => (free_chain d c, remove_nth j live)
+                 | None => (d, live)
+                 end
+  end.
+(* a table file right after its creation: the header slot only *)
+Definition empty_table : tdump := {| filled := 1; free_head := 0; slots := [] |}.
